@@ -251,18 +251,27 @@ def gen_import_arms(man):
                                     < find_seq(vm, ["self", ".", "modules", ".", "insert", "("], o3, c3))
     # init_built_in_globals names
     o4, c4 = fn_body(vm, "init_built_in_globals")
-    names = []
+    # every define_native / set_global call of init_built_in_globals: (position, name, module argument)
+    installs = []
+    sig = vm[o4 - 1]
     for call in ("define_native", "set_global"):
         for i in find_all_seq(vm, ["self", ".", call, "("], o4, c4):
             e = match_group(vm, i + 3)
-            strs = [rust_str(t.text) for t in vm[i + 4:e] if t.kind == "str"]
-            first = vm[i + 4].text
-            if first != "module_path" or len(strs) != 1:
-                names.append("?")
-            else:
-                names.append((i, strs[0]))
-    names = [n[1] if isinstance(n, tuple) else n for n in sorted(names, key=lambda n: n[0] if isinstance(n, tuple) else -1)]
-    info["builtin_names"] = names
+            args = __import__("rustlex").split_top(vm, i + 4, e)
+            if len(args) < 2:
+                raise ValueError("init_built_in_globals: call with < 2 arguments")
+            target = " ".join(texts(vm, *args[0]))
+            nm_toks = vm[args[1][0]:args[1][1]]
+            if len(nm_toks) != 1 or nm_toks[0].kind != "str":
+                raise ValueError("init_built_in_globals: the name of an installed global is not a string literal")
+            if target.startswith('"'):
+                target = "literal " + rust_str(target)
+            installs.append((i, rust_str(nm_toks[0].text), target))
+    installs.sort()
+    info["builtin_installs"] = [[n, t] for (_, n, t) in installs]
+    # the names every module gets = those installed into the function's module argument
+    info["builtin_names"] = [n for (_, n, t) in installs if t == "module_path"]
+    info["builtin_misinstalled"] = [[n, t] for (_, n, t) in installs if t != "module_path"]
     # load_frame
     o5, c5 = fn_body(vm, "load_frame")
     lf = find_seq(vm, ["self", ".", "active_module", "="], o5, c5)
@@ -378,6 +387,8 @@ def gen_import_arms(man):
     L.append("Definition gen_finish_sets_imported : bool := %s." % b(info["finish_sets_imported"]))
     L.append("Definition gen_module_get_or_create : bool := %s." % b(info["module_get_or_create"]))
     L.append("Definition gen_builtin_names : list string := %s." % coq_list(info["builtin_names"]))
+    L.append("Definition gen_builtin_installs : list (string * string) := [%s]." % "; ".join("(%s, %s)" % (coq_str(n), coq_str(t)) for n, t in info["builtin_installs"]))
+    L.append("Definition gen_builtin_misinstalled : list (string * string) := [%s]." % "; ".join("(%s, %s)" % (coq_str(n), coq_str(t)) for n, t in info["builtin_misinstalled"]))
     L.append("Definition gen_core_class_names : list string := %s." % coq_list(info["core_class_names"]))
     L.append("Definition gen_load_frame_sets_active_from_closure : bool := %s." % b(info["load_frame_sets_active_from_closure"]))
     L.append("Definition gen_call_pushes_then_loads : bool := %s." % b(info["call_pushes_then_loads"]))
